@@ -37,6 +37,10 @@ def invCheck (P : Program) (s : St) (n : Nat) : List String :=
      else []) ++
     (if r.builtAt != 0 && !inflight s k then goodRecB P s.mem k ++ freshRecB s.mem s.pending k else []) ++
     (if d.builtAt != 0 then (goodRecB P s.db k ++ freshRecB s.db s.pending k).map ("db." ++ ·) else []) ++
+    (if d.builtAt != 0 then
+      (if (s.db.seq k).all (fun qv => qv.1.kind != 0 || (s.mem.res qv.1.key).value == qv.2 || d.builtAt < (s.mem.res qv.1.key).computedAt) then [] else ["dbCross.seq"]) ++
+      (if (s.db.disc k).all (fun dv => (s.mem.res dv.1).value == dv.2 || d.builtAt < (s.mem.res dv.1).computedAt || s.pending.contains dv) then [] else ["dbCross.disc"])
+     else []) ++
     (if r.builtAt != 0 && !inflight s k then
       (if d.builtAt != 0 && d.value == r.value && d.computedAt == r.computedAt && s.db.seq k == s.mem.seq k
           && s.db.disc k == s.mem.disc k && d.builtAt ≤ r.builtAt then [] else ["memDb"])
@@ -60,7 +64,8 @@ def invCheck (P : Program) (s : St) (n : Nat) : List String :=
      else [])
   let global : List String :=
     (if s.dbIter ≤ s.epoch then [] else ["iterLe"]) ++
-    (if s.target.isNone && s.dbIter != s.epoch then ["iterEq"] else []) ++
+    (if (s.target.isNone || !s.started) && s.dbIter != s.epoch then ["iterEq"] else []) ++
+    (if s.target.isNone && !s.pending.isEmpty then ["pendIdle"] else []) ++
     (if activeB s && s.epoch == 0 then ["startedPos"] else []) ++
     (if s.started && s.target.isNone then ["startedTarget"] else []) ++
     (if s.pending.all (fun dv => dv.2 == P.out dv.1 s.env [] && P.self dv.1 && s.status dv.1 != .done) then [] else ["pendOk"])
